@@ -762,6 +762,41 @@ pub fn search_c14(rng: &mut Rng, thorough: bool) -> SearchResult {
             }
         }
     }
+    // the floating-point layer: finite coordinates incl. extremes x every i32 resolution class; malformed ids
+    let extreme_coord = |rng: &mut Rng| -> f64 {
+        match rng.below(10) {
+            0 => 0.0,
+            1 => -0.0,
+            2 => 90.0,
+            3 => -90.0,
+            4 => 180.0,
+            5 => -180.0,
+            6 => (rng.unit() - 0.5) * 1e6,
+            7 => f64::MIN_POSITIVE * (1 + rng.below(4)) as f64,
+            8 => (rng.unit() - 0.5) * 1e-300,
+            _ => 360.0 * rng.unit() - 180.0,
+        }
+    };
+    for _ in 0..(n / 2) {
+        let lon = extreme_coord(rng);
+        let lat = match rng.below(4) { 0 => extreme_coord(rng).clamp(-90.0, 90.0), _ => 180.0 * rng.unit() - 90.0 };
+        let t = idcorr::extreme_res(rng);
+        if let Some(w) = call(&mut r, "lonlat_to_cell", !(0..30).contains(&t), &mut || a5::lonlat_to_cell(a5::LonLat::new(lon, lat), t).map(|x| vec![(x, Some(t))])) {
+            r.viol("total:lonlat_to_cell", format!("lonlat_to_cell(({:e}, {:e}), {}): {}", lon, lat, t, w));
+        }
+        let malformed = rng.chance(2, 3);
+        let id = if malformed { malformed_id(rng) } else { let q = random_res(rng); valid_cell(rng, q) };
+        if let Some(w) = call(&mut r, "cell_to_lonlat", malformed, &mut || a5::cell_to_lonlat(id).and_then(|p| if p.longitude().is_finite() && p.latitude().is_finite() { Ok(vec![]) } else { Err("non-finite".into()) })) {
+            r.viol("total:cell_to_lonlat", format!("cell_to_lonlat({:x}): {}", id, w));
+        }
+        let segs = match rng.below(5) { 0 => None, 1 => Some(1), 2 => Some(0), 3 => Some(-3), _ => Some(rng.range_i(1, 6) as i32) };
+        let closed = rng.chance(1, 2);
+        if let Some(w) = call(&mut r, "cell_to_boundary", malformed || segs.map_or(false, |x| x < 1), &mut || {
+            a5::cell_to_boundary(id, Some(a5::core::cell::CellToBoundaryOptions { closed_ring: closed, segments: segs })).and_then(|b| if b.iter().all(|p| p.longitude().is_finite() && p.latitude().is_finite()) { Ok(vec![]) } else { Err("non-finite".into()) })
+        }) {
+            r.viol("total:cell_to_boundary", format!("cell_to_boundary({:x}, {:?}, {}): {}", id, segs, closed, w));
+        }
+    }
     r
 }
 
